@@ -324,6 +324,55 @@ def case_key(c):
 STRICT_ERRORS = os.environ.get("VERIF_STRICT_ERRORS") == "1"
 
 
+def model_eval(model, mc):
+    """mc = (op, args): one model call.  mc = [(op, args), ...]: a SEQUENCE of model calls (a multi-step op of the
+    implementation side returns one entry per step); the expected value is the list of ["ok", value] / ["err", None]"""
+    if isinstance(mc, list):
+        out = []
+        for op, args in mc:
+            r = model.call(op, args)
+            if r[0] == "fail":
+                return r
+            out.append(["ok", r[1]] if r[0] == "ok" else ["err", None])
+        return ("ok", out)
+    return model.call(mc[0], mc[1])
+
+
+VARIANT_TEXT = {
+    "bytearray": "with its bytes arguments passed as bytearray objects",
+    "memoryview": "with its bytes arguments passed as memoryview objects",
+    "reuse": "with ONE caller-owned bytearray per argument, refilled in place before each call",
+    "reuselist": "with ONE caller-owned list per argument, refilled in place before each call",
+}
+
+
+def run_variant(impl, c, canon=None):
+    """re-execute a variant case: first the calls of its history (same variant), then the case itself"""
+    kind = c["variant"]
+    for h in c.get("history", []):
+        hc = case_from_json(h)
+        impl.call(hc["op"] + "@" + kind, hc["args"], timeout=hc.get("timeout"))
+    r = impl.call(c["op"] + "@" + kind, c["args"], timeout=c.get("timeout"))
+    if canon and r[0] == "ok":
+        r = ("ok", canon(c, r[1]))
+    return r
+
+
+def variant_verdict(impl, c, expected, canon=None):
+    """a deviation seen in a bytes-like / reused-object variant: reproduce it (history included); reproduced = a concrete
+    failing history of calls on the implementation"""
+    r = run_variant(impl, c, canon)
+    same = (r[0] == expected[0]) and (norm(r[1]) == norm(expected[1]) if r[0] == "ok" else True)
+    if same:
+        return None
+    hist = ""
+    if c.get("history"):
+        h = c["history"][0]
+        hist = " after the call %s(%s) on the same objects" % (h["op"], ", ".join(short(a, 60) for a in h["args"]))
+    return "%s %s%s answers %s; the model, and the same call on fresh bytes/list objects, give %s" % (
+        c["op"], VARIANT_TEXT.get(c["variant"], c["variant"]), hist, short(r, 200), short(expected, 200))
+
+
 def results_agree(ir, mr, strict):
     """ir: impl result tuple, mr: model result tuple"""
     if mr[0] == "fail":
@@ -601,8 +650,7 @@ def run_check(prop_id, tier="quick", seed=0, replay=None):
         if c.get("expect") is not None:        # spec value computed by the generator itself
             mr = c["expect"]
         else:
-            op, args = model_call(c) if model_call else (prop_id.lower() + "_" + c["op"], c["args"])
-            mr = model.call(op, args)
+            mr = model_eval(model, model_call(c) if model_call else (prop_id.lower() + "_" + c["op"], c["args"]))
         if canon and mr[0] == "ok":
             mr = ("ok", canon(c, mr[1]))
         return ir, mr
@@ -674,7 +722,7 @@ def run_check(prop_id, tier="quick", seed=0, replay=None):
                 nv += 1
                 same = (ir0[0] == ir1[0]) and (norm(ir0[1]) == norm(ir1[1]) if ir0[0] == "ok" else True)
                 if not same:
-                    c2 = dict(c, cls=c["cls"] + "@" + kind)
+                    c2 = dict(c, cls=c["cls"] + "@" + kind, variant=kind)
                     disagreements.append((c2, ir1, ("ok", ir0[1]) if ir0[0] == "ok" else ("err", ir0[1])))
             stats["extra"][kind + "_variants"] = nv
         # ... and with ONE caller-owned buffer / list per argument position, refilled in place before every call:
@@ -686,15 +734,31 @@ def run_check(prop_id, tier="quick", seed=0, replay=None):
                            ("reuselist", lambda c: c["op"] not in set(getattr(prop, "NO_REUSELIST_OPS", ()))
                             and any(isinstance(a, list) for a in c["args"]))):
             nv = 0
-            for (c, ir0) in [x for x in sample if pick(x[0])][:150]:
+            prev = {}          # op -> the previous case run with this op (the content the reused objects held before)
+            # candidates from ALL cheap cases (not only the re-run sample), accepted and refused inputs alternating: a
+            # stale answer only shows when an accepted input is followed by a different one on the same object
+            cand = [x for x in cheap if pick(x[0])]
+            rs.shuffle(cand)
+            acc = [x for x in cand if x[1][0] == "ok" and x[1][1] not in (False, None)]
+            rej = [x for x in cand if not (x[1][0] == "ok" and x[1][1] not in (False, None))]
+            mixed = []
+            while (acc or rej) and len(mixed) < (600 if tier == "thorough" else 300):
+                if acc:
+                    mixed.append(acc.pop())
+                if rej:
+                    mixed.append(rej.pop())
+            for (c, ir0) in mixed:
                 ir1 = impl.call(c["op"] + "@" + kind, c["args"], timeout=c.get("timeout"))
                 if canon and ir1[0] == "ok":
                     ir1 = ("ok", canon(c, ir1[1]))
                 nv += 1
                 same = (ir0[0] == ir1[0]) and (norm(ir0[1]) == norm(ir1[1]) if ir0[0] == "ok" else True)
                 if not same:
-                    c2 = dict(c, cls=c["cls"] + "@" + kind)
+                    c2 = dict(c, cls=c["cls"] + "@" + kind, variant=kind)
+                    if c["op"] in prev:
+                        c2["history"] = [case_to_json(dict(prev[c["op"]], variant=kind))]
                     disagreements.append((c2, ir1, ("ok", ir0[1]) if ir0[0] == "ok" else ("err", ir0[1])))
+                prev[c["op"]] = c
             stats["extra"][kind + "_variants"] = nv
 
     # ---- search: turn disagreements into failing inputs of the property ----
@@ -709,6 +773,12 @@ def run_check(prop_id, tier="quick", seed=0, replay=None):
         if reported >= 5:
             violations.append({"kind": "input", "case": case_to_json(c), "observed": short(ir, 400),
                                "expected": short(mr, 400), "oracle": "(not evaluated: more than 5 disagreements)"})
+            continue
+        if c.get("variant"):
+            verdict = variant_verdict(impl, c, mr, canon)
+            violations.append({"kind": "input", "case": case_to_json(c), "observed": short(ir, 2000),
+                               "expected": short(mr, 2000), "oracle": verdict, "failing_input_found": verdict is not None})
+            reported += 1
             continue
         if shrink:
             c, ir, mr = shrink_case(c, ir, mr, shrink, eval_case)
@@ -972,19 +1042,18 @@ def run_replay(prop, path):
     model = ModelRunner(prop.ID)
     model_call = getattr(prop, "model_call", None)
     canon = getattr(prop, "canon", None)
-    ir = impl.call(c["op"], c["args"], timeout=c.get("timeout"))
+    ir = run_variant(impl, c) if c.get("variant") else impl.call(c["op"], c["args"], timeout=c.get("timeout"))
     if c.get("expect") is not None:        # spec value computed by the generator itself (as in run_check.eval_case)
         mr = (c["expect"][0], c["expect"][1])
     else:
-        op, args = model_call(c) if model_call else (prop.ID.lower() + "_" + c["op"], c["args"])
-        mr = model.call(op, args)
+        mr = model_eval(model, model_call(c) if model_call else (prop.ID.lower() + "_" + c["op"], c["args"]))
     if canon:
         if ir[0] == "ok":
             ir = ("ok", canon(c, ir[1]))
         if mr[0] == "ok":
             mr = ("ok", canon(c, mr[1]))
     agree = results_agree(ir, mr, c.get("strict", False))
-    verdict = impl.oracle(c) if hasattr(prop, "prop_oracle") else None
+    verdict = impl.oracle(c) if hasattr(prop, "prop_oracle") and not c.get("variant") else None
     print("implementation:", short(ir, 600))
     print("model         :", short(mr, 600))
     print("property oracle on the implementation:", verdict)
